@@ -301,3 +301,24 @@ def run(fx, rep, tier):
         rep.ob("C19-R4", "description-order" + tag, bool(order_ok),
                "descriptions are written in recorded order with their own constant's text" if order_ok else
                "descriptions are not written as (phrase_i, constant_i.description) in recorded order", body.site())
+    # what the binary prints for a fact comes out of the database session it opened (on disk), and its decimal text out of
+    # the library's formatter: both are part of "prints what the library computed" as an independent observer sees it
+    facts = fx["dev"]
+    rep.rule("C19-R5", "the binary's on-disk database session answers like the library's in-memory one: the tokenizer is "
+                       "registered before any use on every path and every kind of session serves a fully built index "
+                       "(shared with C14-R2 and C14-R5 / C15-R6)")
+    from . import c14, c15, c08
+    sub = type(rep)(rep.prop, rep.tier)
+    c14.r2_tokenizer(facts, sub)
+    c15.r6_session(facts, sub, rule="C19-R5")
+    for o in sub.obls:
+        o["rule"] = "C19-R5"
+        rep.obls.append(o)
+    rep.rule("C19-R6", "the decimal rendering with twelve digits is the faithful one: the formatter rules of C08 (generator, "
+                       "split, dispatch, the three forms, the mark) hold (shared with C08-R1..R7)")
+    sub = type(rep)(rep.prop, rep.tier)
+    c08.run({"dev": facts}, sub, "quick")
+    for o in sub.obls:
+        o["key"] = o["rule"] + ":" + o["key"]
+        o["rule"] = "C19-R6"
+        rep.obls.append(o)
